@@ -957,6 +957,8 @@ class CObs:
     def __add__(self, other):
         if isinstance(other, np.ndarray):
             return other + self
+        elif other.__class__.__name__ == 'Corr':
+            return NotImplemented
         elif hasattr(other, 'real') and hasattr(other, 'imag'):
             return CObs(self.real + other.real,
                         self.imag + other.imag)
@@ -969,6 +971,8 @@ class CObs:
     def __sub__(self, other):
         if isinstance(other, np.ndarray):
             return -1 * (other - self)
+        elif other.__class__.__name__ == 'Corr':
+            return NotImplemented
         elif hasattr(other, 'real') and hasattr(other, 'imag'):
             return CObs(self.real - other.real, self.imag - other.imag)
         else:
@@ -980,6 +984,8 @@ class CObs:
     def __mul__(self, other):
         if isinstance(other, np.ndarray):
             return other * self
+        elif other.__class__.__name__ == 'Corr':
+            return NotImplemented
         elif hasattr(other, 'real') and hasattr(other, 'imag'):
             if all(isinstance(i, Obs) for i in [self.real, self.imag, other.real, other.imag]):
                 return CObs(derived_observable(lambda x, **kwargs: x[0] * x[1] - x[2] * x[3],
@@ -1002,6 +1008,8 @@ class CObs:
     def __truediv__(self, other):
         if isinstance(other, np.ndarray):
             return 1 / (other / self)
+        elif other.__class__.__name__ == 'Corr':
+            return NotImplemented
         elif hasattr(other, 'real') and hasattr(other, 'imag'):
             r = other.real ** 2 + other.imag ** 2
             return CObs((self.real * other.real + self.imag * other.imag) / r, (self.imag * other.real - self.real * other.imag) / r)
